@@ -129,10 +129,17 @@ func verifHarness_C06_forwarder() {
 	client := &fwAdminClient{src: src}
 	returned := false
 	var retErr error
+	// mode 0: default pass-through; mode 1: LCM mode (shard ids remapped, then the same forwarder)
+	scc, lcm := config.ShardCountConfig{}, LCMParameters{}
+	if verifParam("mode", 0) == 1 {
+		scc = config.ShardCountConfig{Mode: config.ShardCountLCM}
+		lcm = LCMParameters{LCM: 6, TargetShardCount: 2}
+		verifReach("lcm-mode")
+	}
 	go func() {
 		retErr = handleStream(ini, metadata.Pairs("a", "b"),
 			history.ClusterShardID{ClusterID: 1, ShardID: 3}, history.ClusterShardID{ClusterID: 2, ShardID: 3},
-			log.NewNoopLogger(), config.ShardCountConfig{}, LCMParameters{}, RoutingParameters{},
+			log.NewNoopLogger(), scc, lcm, RoutingParameters{},
 			client, nil, nil, []string{"l"}, context.Background())
 		returned = true
 	}()
